@@ -263,5 +263,6 @@ def read_probes(c=REF):
     t.append(("comments only", f"{H} nothing here\n\n"))
     t.append(("label carrying the loop keyword inside", f"data_x\n{L}\n{P}{L}a\n{P}b{L}\n1 2\n"))
     t.append(("label numbers that do not follow the order of the lines", f"data_x\n{L}\n{P}b {H}2\n{P}a {H}1\n{P}c {H}7\n1 2 3\n"))
+    t.append(("block names with capital letters (STOPGAP wedge lists, user-defined blocks)", f"\ndata_stopgap_WedgeList\n\n{L}\n{lab(['tomo_num', 'Pixelsize'], False)}\n1 2.5\n\n\ndata_Optics_B\n{L}\n{lab(['rlnOpticsGroupName'], True)}OpticsGroup1\n"))
     t.append(("twelve rows", f"data_x\n{L}\n{lab(['a', 'b'], True)}" + "".join(f"{i} {i * i}\n" for i in range(12))))
     return t
